@@ -19,6 +19,7 @@ use view::{GView, Item};
 use vlock::{ctl, plain_event, tid, Fault, Pending, Sentinel, CV, TID};
 
 struct Worker {
+	extra_keys: Vec<ThreadKey>, // a second live key on one thread (C06 violation): kept, reported by `RB true`
 	key: Option<ThreadKey>,
 	guard: Option<Box<dyn DynGuard>>,
 	built: Arc<Vec<Option<Built>>>,
@@ -100,8 +101,9 @@ impl Worker {
 		match op {
 			Op::KeyGet => match ThreadKey::get() {
 				Some(k) => {
-					assert!(self.key.is_none(), "two keys on one thread");
-					self.key = Some(k);
+					if let Some(old) = self.key.replace(k) {
+						self.extra_keys.push(old);
+					}
 					"RB true".into()
 				}
 				None => "RB false".into(),
@@ -265,7 +267,7 @@ enum Cmd {
 
 fn worker_main(id: usize, built: Arc<Vec<Option<Built>>>, rx: Receiver<Cmd>, tx: Sender<(String, bool)>) {
 	TID.with(|t| t.set(id));
-	let mut w = Worker { key: None, guard: None, built };
+	let mut w = Worker { extra_keys: vec![], key: None, guard: None, built };
 	while let Ok(cmd) = rx.recv() {
 		match cmd {
 			Cmd::Do(op) => {
@@ -350,7 +352,7 @@ fn run_sched(sc: &Scen, world: &scen::World, out: &mut impl Write) {
 		let rtx = rtx.clone();
 		handles.push(std::thread::spawn(move || {
 			TID.with(|x| x.set(t));
-			let mut w = Worker { key: None, guard: None, built: b };
+			let mut w = Worker { extra_keys: vec![], key: None, guard: None, built: b };
 			let r = catch_unwind(AssertUnwindSafe(|| {
 				// wait for the first grant before doing anything
 				drop(vlock::yield_point(t, Pending::Data));
